@@ -1438,6 +1438,52 @@ func main() {
 		countStmts("leveldb/session_compaction.go", "compaction.save", "c.snapTPtrs = append(c.snapTPtrs[:0], c.tPtrs...)") == 1 &&
 		countStmts("leveldb/session_compaction.go", "compaction.restore", "c.tPtrs = append(c.tPtrs[:0], c.snapTPtrs...)") == 1,
 		"`compaction.save` COPIES the `baseLevelForKey` cursor (`tPtrs`) and `restore` copies it back: a retried compaction restarts from the saved cursor, not from where the failed attempt left it")
+	{
+		// every exported method of *DB begins by checking that the DB is open (directly or through putRec); Close flips the flag itself
+		ok := true
+		n := 0
+		for _, rel := range []string{"leveldb/db.go", "leveldb/db_write.go", "leveldb/db_transaction.go", "leveldb/db_snapshot.go", "leveldb/db_iter.go", "leveldb/db_state.go", "leveldb/db_util.go", "leveldb/db_compaction.go"} {
+			fi := load(rel)
+			for _, d := range fi.f.Decls {
+				fd, isFn := d.(*ast.FuncDecl)
+				if !isFn || fd.Recv == nil || len(fd.Recv.List) != 1 || !fd.Name.IsExported() || fd.Body == nil {
+					continue
+				}
+				if exprString(fd.Recv.List[0].Type) != "*DB" {
+					continue
+				}
+				n++
+				var buf bytes.Buffer
+				printer.Fprint(&buf, token.NewFileSet(), fd.Body)
+				t := buf.String()
+				switch fd.Name.Name {
+				case "Close":
+					if !strings.Contains(t, "db.setClosed()") {
+						ok = false
+					}
+				case "Put", "Delete":
+					if !strings.Contains(t, "db.putRec(") {
+						ok = false
+					}
+				default:
+					// the check must come before anything else is touched: within the first statement
+					if len(fd.Body.List) == 0 {
+						ok = false
+						break
+					}
+					var b0 bytes.Buffer
+					printer.Fprint(&b0, token.NewFileSet(), fd.Body.List[0])
+					if !strings.Contains(b0.String(), "db.ok()") {
+						fmt.Fprintln(os.Stderr, "lifeDBMethodsGuarded: no db.ok() in the first statement of", fd.Name.Name)
+						ok = false
+					}
+				}
+			}
+		}
+		pr := funcText("leveldb/db_write.go", "DB.putRec")
+		o.boolean("lifeDBMethodsGuarded", ok && n >= 14 && strings.Index(pr, "db.ok()") >= 0 && strings.Index(pr, "db.ok()") < 40,
+			"every exported method of `*DB` starts with the `db.ok()` check (Put/Delete through `putRec`; `Close` flips the flag with `setClosed`)")
+	}
 	o.boolean("ordPointReadsHoldSnapshot", topStmtBefore("leveldb/db.go", "DB.Get", "se := db.acquireSnapshot()", "defer db.releaseSnapshot(se)") &&
 		topStmtBefore("leveldb/db.go", "DB.Get", "defer db.releaseSnapshot(se)", "return db.get(nil, nil, key, se.seq, ro)") &&
 		topStmtBefore("leveldb/db.go", "DB.Has", "se := db.acquireSnapshot()", "defer db.releaseSnapshot(se)") &&
